@@ -29,6 +29,11 @@ claimed = {
          "head, maxp, OS/2 and post Info values with every field at its boundary values (<= 2 fields deviating, every flag, every code-page bit) must satisfy Read(Encode(x)) == normalForm(x); hmtx/hhea: all width vectors of length 1..5/6 over {0,500,501} x extents x explicit/implicit LSB, with advanceWidthMax, min LSB/RSB, xMaxExtent, numberOfHMetrics recomputed from their definitions on the raw bytes; all coprime caret slopes; all 2^17 low Version values; for every generator font the head bbox, xAvgCharWidth, first/last char index and the metric queries are checked against the outlines.",
          "normal form: OS/2 Unicode-range bit 57 is derived, non-positive cap/x-height == unset, fsSelection REGULAR excludes BOLD/ITALIC (skipped), Vendor is a 4-character tag, post italic angle is 16.16.",
          "DESIGN.md 4/C12"),
+ "C09": ("model_checking",
+         "bounded exhaustive enumeration of code->glyph maps and hand-assembled subtables against an independent specification decoder",
+         "Format 4: all 3^10 (quick) / 4^11 maps over a code window at both ends of the BMP (incl. 0xFFFF and wrapping glyph ids), all [run][gap][run] structures at three offsets, subtables near the 64 KiB limit; format 12: all 4^7 maps over BMP/astral boundary codes; every Encode output is decoded by the library and by refcmap (written from the specification) and compared with the original on the window and its neighbourhood; header fields checked against the spec formulas. Byte-level: assembled format 4 with idRangeOffset+idDelta and the customary final segments, format 6, format 0 under Unicode and Macintosh keys. cmap.Table: all 3^7 key subsets with shared/distinct subtables, sharing, GetBest precedence.",
+         "Code points are non-negative; the code window is finite (boundary codes); known finding: format 0 under the Macintosh key.",
+         "DESIGN.md 4/C09"),
 }
 checks = []
 na = []
